@@ -1,5 +1,6 @@
 """C18 — visible line parts partition the data exactly
-(mptplot/values/linepart_{linear,code,join}.c, mpt++/linepart.cpp, mpt++/polyline.cpp)."""
+(mptplot/values/linepart_{linear,code,join}.c, mpt++/linepart.cpp, mpt++/polyline.cpp).
+Case kinds: L/E/J/C (line parts, see harness/c18_linepart.cpp) and P/R/A/W (polyline::set, array::set(-1), apply_data, float wrappers)."""
 import itertools, multiprocessing, os
 from fractions import Fraction
 import vcheck
@@ -204,6 +205,12 @@ def compare_case(args):
         r["corr"] = (-1, "missing output", "I=%s M=%s S=%s" % (it is not None, mt is not None, st is not None))
         return r
     kind = case.split(None, 1)[0]
+    if kind == "P":
+        return compare_poly(case, it, mt, st)
+    if kind == "R":
+        return compare_represet(case, it, mt, st)
+    if kind == "A":
+        return compare_plain(case, it, mt, st)
     small = case_small(case)
     if kind == "L":
         c, s = compare_seq(" ".join(it), " ".join(mt), " ".join(st), small, " ", " | ")
@@ -239,14 +246,14 @@ def compare_case(args):
         for j in range(n):
             a = it[j] if j < len(it) else "<none>"
             b = mt[j] if j < len(mt) else "<none>"
-            if a != b and not (kind == "C" and same_code_tok(a, b)):
+            if a != b and not (kind == "C" and same_code_tok(a, b)) and not (kind == "W" and same_wrap_tok(a, b)):
                 r["corr"] = (j, a, b)
                 break
         n = max(len(it), len(st))
         for j in range(n):
             a = it[j] if j < len(it) else "<none>"
             b = st[j] if j < len(st) else "<none>"
-            if a != b and not (kind == "C" and same_code_tok(a, b)):
+            if a != b and not (kind == "C" and same_code_tok(a, b)) and not (kind == "W" and same_wrap_tok(a, b)):
                 r["spec"] = (j, a, b)
                 break
     return r
@@ -262,6 +269,486 @@ def same_code_tok(a, b):
         return int(ca) == int(cb) and Fraction(int(na, 0), int(da, 0)) == Fraction(int(nb, 0), int(db, 0))
     except ValueError:
         return False
+
+
+# ------------------------------------------------------------------ open defects: constant switches
+# Each switch names a proposed patch under /verif/docs.  False = the patch is NOT in /repo: the generator leaves out
+# the cases that run into the defect (they are replayable: docs/C18_replay_*.json show VIOLATION on the unpatched
+# tree).  Set a switch to True once the patch is committed; nothing else has to change (the Coq model already
+# follows the patched code on these paths, see coq/C18/LinepartModel.v merge and coq/C18/PolylineModel.v).
+PATCHED_SET_STALE = False            # docs/C18_set_stale_cut_trim.diff   linepart::array::set keeps old _cut/_trim: frames >= 2
+PATCHED_MERGE_CUT_TRIM = False       # docs/C18_merge_cut_trim.diff       apply() of a further dimension onto parts of a dimension that has a range
+PATCHED_SHORT_DIMENSION = False      # docs/C18_short_dimension.diff      (on top of merge_cut_trim) a later dimension with fewer values
+PATCHED_SKIP_STORE = False           # docs/C18_polyline_skip_store.diff  polyline::set: a store without doubles behind the first and before a usable one
+PATCHED_NO_FIRST_STORE = False       # docs/C18_polyline_no_first_store.diff  polyline::set on a USED polyline (frames >= 2) whose first store has no doubles
+PATCHED_APPLY_DATA_NOPARTS = False   # docs/C18_apply_data_noparts.diff   apply_data without parts: several dimensions and > 65535 points or unequal lengths
+PATCHED_APPLY_SHORT_PART = False     # docs/C18_apply_short_part.diff     (mptplot/values.h) a part with raw = 1 that draws 2 points: its points are
+                                     #                                    not compared in GENERATED cases while False (always compared in replays)
+STRICT = False                       # set while a replay file is run: no masking at all
+
+
+# ------------------------------------------------------------------ polyline cases (P / A / W)
+def split_on(toks, sep):
+    out, cur = [], []
+    for t in toks:
+        if t == sep:
+            out.append(cur)
+            cur = []
+        else:
+            cur.append(t)
+    out.append(cur)
+    return out
+
+
+def parse_dim(toks):
+    """-> ('X',) | ('D', min tok, max tok, [value tokens])   (F = floats, Z = empty doubles: both without usable data)"""
+    if not toks or toks[0] in ("X", "F"):
+        return ("X",)
+    if toks[0] == "Z":
+        return ("D", "N", "N", [])
+    return ("D", toks[0], toks[1], toks[2:])
+
+
+def parse_frames(case):
+    t = case.split()
+    return [[parse_dim(d) for d in split_on(fr, "|") if d] for fr in split_on(t[1:], "&")]
+
+
+def expand(vtoks):
+    out = []
+    for x in vtoks:
+        v, c = val_of(x)
+        out.extend([v] * c)
+    return out
+
+
+def usable(d):
+    return d[0] == "D" and bool(d[3])
+
+
+def has_in_out(d):
+    """does the dimension leave its range somewhere (an in-range value followed by an out-of-range one)?"""
+    if d[1] == "N":
+        return False
+    mn, mx = val_of(d[1])[0], val_of(d[2])[0]
+    prev = None
+    for x in d[3]:
+        v, _ = val_of(x)
+        cur = mn <= v <= mx
+        if prev and not cur:
+            return True
+        prev = cur
+    return False
+
+
+def frame_static(fr):
+    """(needs merge patch, unequal lengths, unusable store behind the first and before a usable one, first store unusable,
+        any range)"""
+    use = [d for d in fr[:3] if usable(d)]
+    lens = [count_points(d[3]) for d in use]
+    uneq = len(set(lens)) > 1
+    ranged = [k for k, d in enumerate(use) if d[1] != "N"]
+    # a further dimension onto parts that came from a range: the unpatched loop agrees with the patched one only when that
+    # was the ONLY range, it is never left (no trim, no undrawn tail) and nothing behind it has a range
+    merge = bool(ranged) and ranged[0] < len(use) - 1 and (len(ranged) > 1 or has_in_out(use[ranged[0]]))
+    skip = False
+    seen_bad = False
+    for k, d in enumerate(fr):
+        if not usable(d):
+            seen_bad = seen_bad or k > 0
+        elif seen_bad:
+            skip = True
+    nofirst = not fr or not usable(fr[0])
+    return merge, uneq, skip, nofirst, bool(ranged), nofirst and bool(use)
+
+
+def poly_static(case):
+    """what the generator switches look at, over all frames of a P case"""
+    frs = parse_frames(case)
+    st = [frame_static(fr) for fr in frs]
+    return {"frames": len(frs),
+            "merge": any(x[0] for x in st), "uneq": any(x[1] for x in st), "skip": any(x[2] for x in st),
+            "used-nofirst": any(x[3] for x in st[1:]),
+            "nofirst-then-usable": any(x[5] for x in st),
+            # set() again keeps old cut/trim fractions: harmless only while no earlier frame had a range
+            "stale": any(x[4] for x in st[:-1])}
+
+
+def poly_enabled(case):
+    k = case.split(None, 1)[0]
+    if k == "P":
+        f = poly_static(case)
+        if f["stale"] and not PATCHED_SET_STALE:
+            return False
+        if f["merge"] and not PATCHED_MERGE_CUT_TRIM:
+            return False
+        if f["uneq"] and not (PATCHED_SHORT_DIMENSION and PATCHED_MERGE_CUT_TRIM):
+            return False
+        if f["skip"] and not PATCHED_SKIP_STORE:
+            return False
+        if f["used-nofirst"] and not PATCHED_NO_FIRST_STORE:
+            return False
+        if f["nofirst-then-usable"] and PATCHED_SKIP_STORE and not PATCHED_NO_FIRST_STORE:
+            return False        # skip_store alone lets such a call draw from set(-1); commit no_first_store with it
+    elif k == "R":
+        if not poly_enabled("P" + case[1:]):
+            return False
+        if any(frame_static(fr)[4] for fr in parse_frames(case)) and not PATCHED_SET_STALE:
+            return False        # set(-1) re-uses records that carry fractions
+    elif k == "A":
+        t = case.split()
+        fr = [parse_dim(d) for d in split_on(t[2:], "|") if d]
+        lens = [count_points(d[3]) for d in fr if d[0] == "D" and d[3]]
+        if len(lens) > 1 and (int(t[1]) > 65535 or len(set(lens + [int(t[1])])) > 1) and not PATCHED_APPLY_DATA_NOPARTS:
+            return False
+    return True
+
+
+def q_of(txt):
+    """'0x1.8p+1' (C %a) or '<num>/<den>' (model) -> Fraction; None for nan/inf"""
+    try:
+        if "/" in txt:
+            a, b = txt.split("/")
+            return Fraction(int(a, 0), int(b, 0))
+        return Fraction(float.fromhex(txt))
+    except (ValueError, OverflowError):
+        return None
+
+
+def parse_points(tok):
+    """'n<k>,x:y[*c],...' -> list of runs (x, y, count) or None"""
+    items = tok.split(",")
+    if not items or not items[0].startswith("n"):
+        return None
+    runs = []
+    try:
+        n = int(items[0][1:])
+        for it in items[1:]:
+            c = 1
+            if "*" in it:
+                it, cc = it.split("*")
+                c = int(cc)
+            x, y = it.split(":")
+            x, y = q_of(x), q_of(y)
+            if runs and runs[-1][0] == x and runs[-1][1] == y and x is not None:
+                runs[-1] = (x, y, runs[-1][2] + c)
+            else:
+                runs.append((x, y, c))
+        if sum(r[2] for r in runs) != n:
+            return None
+    except ValueError:
+        return None
+    return runs
+
+
+def runs_to_list(runs):
+    out = []
+    for x, y, c in runs:
+        out.extend([(x, y)] * c)
+    return out
+
+
+def parse_parts_tok(tok):
+    """'r.u.c.t,...,=total,u<lu>,r<lr>' -> (parts, total, lu, lr) or None"""
+    items = [x for x in tok.split(",") if x]
+    try:
+        parts = []
+        total = lu = lr = None
+        for x in items:
+            if x[0] == "=":
+                total = int(x[1:])
+            elif x[0] == "u":
+                lu = int(x[1:])
+            elif x[0] == "r":
+                lr = int(x[1:])
+            else:
+                p = tuple(int(y) for y in x.split("."))
+                if len(p) != 4:
+                    return None
+                parts.append(p)
+        if total is None or lu is None or lr is None:
+            return None
+        return parts, total, lu, lr
+    except ValueError:
+        return None
+
+
+def masked_points(parts):
+    """indices of the points of parts the apply<> template (mptplot/values.h) leaves untouched: raw < 2 <= usr"""
+    idx = set()
+    off = 0
+    for raw, usr, cut, trim in parts:
+        if raw < 2 <= usr and (cut or trim):
+            idx.update(range(off, off + usr))
+        off += usr
+    return idx
+
+
+def dim_spec(stok, dim):
+    """one S token of a dimension -> (classes, {segment: fraction})"""
+    if stok == "X" or dim[0] == "X":
+        return None
+    return parse_spec(stok, ";")
+
+
+def check_frame(fr, stoks, itoks, before):
+    """the property, read on one polyline::set: returns None or a description of what is wrong
+    (before = the observation of the same polyline before this call)"""
+    if len(itoks) < 4 or "F" in itoks[:4]:
+        return "crash-or-missing-output:" + ",".join(itoks[:4])[:60]
+    ok, ptok, vtok, ittok = itoks[:4]
+    if not fr or not usable(fr[0]):
+        # the first store decides how many points there are: without values the call fails and changes nothing
+        if ok != "set=0":
+            return "set-succeeds-without-values-in-the-first-store"
+        if [ptok, vtok, ittok] != before:
+            return "failed-set-changed-the-polyline"
+        return None
+    pp = parse_parts_tok(ptok)
+    runs = parse_points(vtok)
+    if pp is None or runs is None or ok not in ("set=1", "set=0"):
+        return "unreadable-output"
+    ok = ok == "set=1"
+    parts, total, lu, lr = pp
+    pts = runs_to_list(runs)
+    # the usable dimensions: doubles with at least one value, at most three
+    dims = []
+    for k, d in enumerate(fr[:3]):
+        if d[0] == "D" and d[3] and k < len(stoks):
+            cl, xs = dim_spec(stoks[k], d)
+            dims.append((k, expand(d[3]), cl, xs))
+    lens = [len(d[1]) for d in dims]
+    n = lens[0]
+    if total not in (n, max(lens)):
+        return "covered=%d-of-%d-points" % (total, n)
+    n = total
+    if sum(p[0] for p in parts) != total or lr != total:
+        return "sum-of-raw-differs-from-reported-total"
+    if lu != sum(p[1] for p in parts) or lu != len(pts):
+        return "points=%d-length_user=%d-sum-usr=%d" % (len(pts), lu, sum(p[1] for p in parts))
+    if ok != (len(pts) > 0):
+        return "result=%s-with-%d-points" % (ok, len(pts))
+
+    def cls(i):
+        c = "1"
+        for _, vals, cl, _ in dims:
+            if i >= len(vals) or cl[i] == "0":
+                return "0"
+            if cl[i] != "1":
+                c = "*"
+        return c
+
+    def out_dims(i):
+        return [d for d in dims if i < len(d[1]) and d[2][i] != "1"]
+
+    def edge_code(o, v):
+        """point o (not in range in every dimension) drawn next to v: (code wanted, why-not)"""
+        seg = min(o, v)
+        want = 0
+        for _, vals, cl, xs in out_dims(o):
+            if v >= len(vals) or cl[v] != "1" or seg not in xs:
+                return None
+            want = max(want, code_of(xs[seg]))
+        return want
+
+    def boundary_ok(i, lo, hi):
+        for j in (i - 1, i + 1):
+            if lo <= j < hi and cls(j) == "1":
+                w = edge_code(i, j)
+                if w is None or w > 0:
+                    return False
+        return cls(i) == "*"
+
+    cnt = [0] * (n + 2)
+    pos = off = 0
+    mask = set() if (PATCHED_APPLY_SHORT_PART or STRICT) else masked_points(parts)
+    for k, (raw, usr, cut, trim) in enumerate(parts):
+        if raw < 1:
+            return "part%d-no-progress" % k
+        if usr == 0:
+            if cut or trim:
+                return "part%d-draws-nothing-but-cut/trim-set" % k
+            pos += raw
+            continue
+        if pos + usr > n:
+            return "part%d-draws-past-the-data" % k
+        cnt[pos] += 1
+        cnt[pos + usr] -= 1
+        last = pos + usr - 1
+        for i in range(pos + 1, last):
+            if cls(i) != "1" and not boundary_ok(i, pos, pos + usr):
+                return "part%d-draws-through-out-of-range-point-%d" % (k, i)
+        if cls(pos) == "1":
+            if cut:
+                return "part%d-cut=%d-at-in-range-start" % (k, cut)
+        else:
+            w = edge_code(pos, pos + 1) if usr >= 2 else None
+            if w is None:
+                return "part%d-starts-at-out-of-range-point-%d-without-crossing" % (k, pos)
+            if cut != w:
+                return "part%d-cut=%d-want=%d" % (k, cut, w)
+        if cls(last) == "1":
+            if trim:
+                return "part%d-trim=%d-at-in-range-end" % (k, trim)
+        else:
+            w = edge_code(last, last - 1) if usr >= 2 else None
+            if w is None:
+                return "part%d-ends-at-out-of-range-point-%d-without-crossing" % (k, last)
+            if trim != w:
+                return "part%d-trim=%d-want=%d" % (k, trim, w)
+        # the points of this part: data verbatim, clipped ends on the line towards the neighbour
+        for j in range(usr):
+            if off + j in mask:
+                continue
+            i = pos + j
+            x = y = Fraction(0)
+            for dk, vals, _, _ in dims:
+                if i >= len(vals):
+                    continue
+                v = vals[i]
+                if j == 0 and cut:
+                    v = vals[i] + Fraction(cut, 65536) * (vals[i + 1] - vals[i])
+                elif j == usr - 1 and trim:
+                    v = vals[i] + Fraction(trim, 65536) * (vals[i - 1] - vals[i])
+                if dk in (0, 2):
+                    x += v
+                if dk in (1, 2):
+                    y += v
+            if pts[off + j] != (x, y):
+                return "part%d-point%d-is-%s-want-%s" % (k, j, fmt_pt(pts[off + j]), fmt_pt((x, y)))
+        pos += raw
+        off += usr
+    c = 0
+    for i in range(n):
+        c += cnt[i]
+        if cls(i) == "1" and c != 1:
+            return "in-range-point-%d-drawn-%d-times" % (i, c)
+        if cls(i) == "0" and c != 0:
+            return "interior-out-of-range-point-%d-drawn-%d-times" % (i, c)
+    # the part iterator
+    views = ittok.split(",")
+    if views[0] != "it" or views[-1] != "E0+0":
+        return "iterator-output-unreadable-or-end-iterator-not-empty:" + views[-1]
+    views = views[1:-1]
+    off = 0
+    k = 0
+    for raw, usr, cut, trim in parts:
+        if off == len(pts):
+            break
+        want = "L%d+%d/P%d+%d" % (off, usr, off + (1 if cut else 0), usr - (1 if cut else 0) - (1 if trim else 0))
+        if k >= len(views) or views[k] != want:
+            return "iterator-part%d-is-%s-want-%s" % (k, views[k] if k < len(views) else "<none>", want)
+        off += usr
+        k += 1
+    if k != len(views):
+        return "iterator-yields-%d-parts-want-%d" % (len(views), k)
+    return None
+
+
+def fmt_pt(p):
+    return "(%s;%s)" % tuple("nan" if v is None else ("%g" % float(v)) for v in p)
+
+
+def points_equal(a, b, mask):
+    ra, rb = parse_points(a), parse_points(b)
+    if ra is None or rb is None:
+        return False
+    if ra == rb:
+        return True
+    la, lb = runs_to_list(ra), runs_to_list(rb)
+    if len(la) != len(lb):
+        return False
+    return all(i in mask or x == y for i, (x, y) in enumerate(zip(la, lb)))
+
+
+def compare_poly(case, it, mt, st):
+    """P: four tokens per frame (result, parts, points, iterator); M must agree token by token (points as numbers),
+    the property is read by check_frame"""
+    r = {"corr": None, "spec": None, "I": it, "M": mt, "S": st}
+    frames = parse_frames(case)
+    sfr = split_on(st, "&")
+    for f, fr in enumerate(frames):
+        a = it[4 * f:4 * f + 4]
+        b = mt[4 * f:4 * f + 4]
+        if r["corr"] is None:
+            pp = parse_parts_tok(a[1]) if len(a) > 1 else None
+            mask = set() if (pp is None or PATCHED_APPLY_SHORT_PART or STRICT) else masked_points(pp[0])
+            for j in range(4):
+                x = a[j] if j < len(a) else "<none>"
+                y = b[j] if j < len(b) else "<none>"
+                if x != y and not (j == 2 and points_equal(x, y, mask)):
+                    r["corr"] = (4 * f + j, x[:300], y[:300])
+                    break
+        if r["spec"] is None:
+            before = it[4 * f - 3:4 * f] if f else ["=0,u0,r0", "n0", "it,E0+0"]
+            why = check_frame(fr, sfr[f] if f < len(sfr) else [], a, before)
+            if why:
+                r["spec"] = (4 * f, ("frame%d:" % f) + why + "|" + ",".join(a)[:300],
+                             "every-point-once;in-range-in-all-dimensions-drawn-once;interior-not-drawn;cut/trim=code(crossing);points=data|"
+                             + ",".join(sfr[f] if f < len(sfr) else [])[:200])
+    for k in ("I", "M", "S"):
+        if r[k] and sum(len(x) for x in r[k]) > 4000:
+            r[k] = [x[:200] for x in r[k][:8]]
+    return r
+
+
+def compare_represet(case, it, mt, st):
+    """R: a P frame, then linepart::array::set(-1): the same number of points, all visible again, in chunks, no fractions"""
+    r = compare_poly("P" + case[1:], it[:4], mt[:4], st)
+    a = it[4] if len(it) > 4 else "<none>"
+    b = mt[4] if len(mt) > 4 else "<none>"
+    if r["corr"] is None and a != b:
+        r["corr"] = (4, a[:300], b[:300])
+    if r["spec"] is None:
+        parts, total = parse_group(a, ",")
+        pp = parse_parts_tok(it[1]) if len(it) > 1 else None
+        why = None
+        if parts is None or pp is None:
+            why = "unreadable:" + a[:60]
+        elif total != pp[1] or sum(p[0] for p in parts) != total:
+            why = "set(-1)-covers-%d-points-want-%d" % (total, pp[1])
+        elif any(p[0] != p[1] or p[2] or p[3] or not 1 <= p[0] <= 65533 for p in parts):
+            why = "set(-1)-leaves-a-part-that-is-not-a-plain-chunk"
+        if why:
+            r["spec"] = (4, why + "|" + a[:200], "all-points-of-the-parts-visible-again;no-fractions")
+    r["I"], r["M"] = it[:8], mt[:8]
+    return r
+
+
+def compare_plain(case, it, mt, st):
+    """A: apply_data without part records: every one of the n points gets the value of every dimension that has one"""
+    r = {"corr": None, "spec": None, "I": it, "M": mt, "S": st}
+    t = case.split()
+    n = int(t[1])
+    fr = [parse_dim(d) for d in split_on(t[2:], "|") if d]
+    for j in range(max(len(it), len(mt))):
+        x = it[j] if j < len(it) else "<none>"
+        y = mt[j] if j < len(mt) else "<none>"
+        if x != y and not (j == 1 and points_equal(x, y, set())):
+            r["corr"] = (j, x[:300], y[:300])
+            break
+    dims = [(k, expand(d[3])) for k, d in enumerate(fr[:3]) if d[0] == "D" and d[3]]
+    want = []
+    for i in range(n):
+        x = sum((v[i] for k, v in dims if k in (0, 2) and i < len(v)), Fraction(0))
+        y = sum((v[i] for k, v in dims if k in (1, 2) and i < len(v)), Fraction(0))
+        want.append((x, y))
+    runs = parse_points(it[1]) if len(it) > 1 else None
+    if len(it) < 2 or it[0] != "proc=%d" % len(dims) or runs is None or runs_to_list(runs) != want:
+        got = runs_to_list(runs) if runs else []
+        bad = next((i for i in range(min(len(got), len(want))) if got[i] != want[i]), -1)
+        r["spec"] = (0, "apply_data:%s,first-wrong-point=%d|%s" % (it[0] if it else "<none>", bad, ",".join(it)[:200]),
+                     "proc=%d;every-point-gets-every-dimension-once" % len(dims))
+    for k in ("I", "M", "S"):
+        if r[k] and sum(len(x) for x in r[k]) > 4000:
+            r[k] = [x[:200] for x in r[k][:8]]
+    return r
+
+
+def same_wrap_tok(a, b):
+    """'<ok>.<cut>.<ok>.<trim>:<x>:<y>' equal with the two reals compared as numbers"""
+    pa, pb = a.split(":"), b.split(":")
+    return len(pa) == 3 and len(pb) == 3 and pa[0] == pb[0] and q_of(pa[1]) == q_of(pb[1]) and q_of(pa[2]) == q_of(pb[2])
 
 
 # ------------------------------------------------------------------ the property
@@ -296,16 +783,50 @@ class C18(DiffProperty):
             "with exponents -40..40 for the |delta|<=1 regime); runs of 65533..65537 and 131070.. points around the per-part "
             "limit; pairs of parts for join around the 65535 sums; values for code/real.  A case is non-trivial when it has a "
             "range and at least one crossing or a run over the limit; distinct = distinct case text (an E case stands for "
-            "5^depth sequences; the number of sequences of the run is appended below)")
-    modelled = ("mptplot/values/linepart_linear.c, linepart_code.c, linepart_join.c and linepart::array::set/apply of "
-                "mpt++/linepart.cpp (both loops) transcribed in coq/C18/LinepartModel.v over exact rationals; uint16 fields are "
-                "written mod 2^16.  Not modelled: binary64 rounding (compared by the rule), NaN/infinite inputs, apply() with more "
-                "than one dimension (only one-dimensional merge is run), polyline::set's value_store plumbing, apply_data")
+            "5^depth sequences; the number of sequences of the run is appended below).  "
+            "POLYLINE CASES (mpt++/polyline.cpp, the rest of mpt++/linepart.cpp): 'P <dim> | <dim> .. [& ..]' = polyline::set(transform, "
+            "value stores) once per frame on ONE polyline, with the real layout::graph::transform3 (dimension 0 -> x, 1 -> y, 2 -> x and y, "
+            "scale 1, per-dimension limit = the case's range) and real value_store objects (doubles; X = no data, F = floats, Z = empty; "
+            "the unused capacity behind every store is ASan-poisoned); observed per frame: the result, the part records + the library's "
+            "length_user/length_raw, the point array (every coordinate, run-length coded) and what the part iterator yields "
+            "(begin/end/++/*/line()/points() as offset+length, and the end iterator).  'R' = P followed by linepart::array::set(-1); "
+            "'A n ..' = apply_data() without part records; 'W' = linepart::set_cut/set_trim/cut()/trim() on values exact in binary32.  "
+            "All polyline values lie on the small dyadic grid, so every coordinate must be EQUAL to the model's exact rational.  "
+            "Property-level reading of a frame (python check_frame): a point is in range when it is in range in EVERY usable dimension, "
+            "never to be drawn when some dimension has no value for it or has it and both neighbours outside; sum raw = n = values of "
+            "the first store (or of the longest); every raw >= 1; in-range points drawn exactly once, never-points not at all; an "
+            "out-of-range point only as first/last point of a part, and then in every dimension in which it is outside its neighbour in "
+            "the part is inside and cut/trim = the largest code of these crossings; parts that draw nothing carry no fractions; "
+            "number of points = sum usr = length_user; every point = the data value (sum over the dimensions that feed the axis), a "
+            "clipped end = the point at fraction code/65536 of its segment; the iterator's lines tile the points in part order and "
+            "points() is the line without clipped ends (no size_t underflow); a first store without doubles makes the call fail "
+            "and leaves the polyline unchanged.  Generated: exhaustive five-class sequences to length 5 (quick) / 7 for one dimension, "
+            "exhaustive {below,inside,above}^2 pairs to length 3 / 4 for two ranged dimensions, exhaustive ranged last dimension to "
+            "length 4 / 6, runs around 65533/65535/131070 points, random frames (1-3 dimensions, ranges anywhere, unequal lengths, "
+            "unusable stores, set() again on a used polyline).  CASES LEFT OUT until the patches under docs/ are committed are selected "
+            "by the constant switches PATCHED_* at the top of this file (a pure function of the case text; see docs/notes_C18.md); "
+            "while PATCHED_APPLY_SHORT_PART is False the points of a part with raw = 1 that draws 2 points are not compared in "
+            "generated cases (replay files are always compared in full)")
+    modelled = ("mptplot/values/linepart_linear.c, linepart_code.c, linepart_join.c; mpt++/linepart.cpp: linepart::array::set (0, < 0, > 0), "
+                "linepart::array::apply (empty array and the merge loop over existing parts, any number of dimensions), set_cut/set_trim; "
+                "mpt++/polyline.cpp: polyline::set, apply_data (with and without part records), the part iterator and part::line/points; "
+                "mpt++/value_store.cpp maxsize (as coded: first store only); the template apply<point<double>,double> of mptplot/values.h and "
+                "transform3::apply for linear axes with scale 1 - all transcribed in coq/C18/LinepartModel.v and PolylineModel.v over exact "
+                "rationals; uint16 fields are written mod 2^16, size_t lengths mod 2^64.  The model follows the code AS PATCHED by the seven "
+                "diffs docs/C18_*.diff on the paths the generator keeps disabled until they are committed (merge loop for a further "
+                "dimension after a ranged one / with fewer values, set() on re-used records, polyline::set behind an unusable store or "
+                "without a first store, apply_data without parts for several dimensions, apply<> for a part with raw = 1); on every path "
+                "that is run against the unpatched tree patched and unpatched code agree.  Not modelled: binary64 rounding (compared by "
+                "the rule; polyline cases are exact), NaN/infinite inputs, logarithmic axes (transform3::part with TransformLg, apply_log), "
+                "axis offset/scale other than 0/1, the truncation branch of apply_data (part longer than the data: unreachable from "
+                "polyline::set once the parts are consistent), allocation failures")
     trusted = ["harness/c18_linepart.cpp copies every sequence into an exact-size heap block, calls the real functions and prints the "
-               "records it reads back from the linepart structs / the linepart::array; a transform subclass whose part() calls "
-               "mpt_linepart_linear with the case's range stands in for layout::graph::transform3",
-               "props/c18.py check_parts is the executable reading of the specification on the implementation's part list "
-               "(the Coq counterpart is parts_ok/draw_count in coq/C18/LinepartSpec.v)",
+               "records it reads back from the linepart structs / the linepart::array; for the L/E cases a transform subclass whose part() "
+               "calls mpt_linepart_linear with the case's range stands in for layout::graph::transform3; the P/R/A cases use the real "
+               "layout::graph::transform3 (mpt++/transform.cpp, not modelled beyond part() = mpt_linepart_linear with the limit and "
+               "apply() = the values.h template) and real value_store / typed_array objects (mpt++/array.cpp, C04/C05)",
+               "props/c18.py check_parts / check_frame are the executable reading of the specification on the implementation's part "
+               "list and point array (Coq counterparts: parts_ok/draw_count in LinepartSpec.v, drawn_values/views_of in PolylineSpec.v)",
                "IEEE-754 binary64 division of the host is correctly rounded (hypothesis of C18_code_agrees_small_dyadic)"]
     level_text = ("proof: Coq theorems over exact rationals, for EVERY value sequence (any length, induction over the driver loop "
                   "with fuel |data| whose sufficiency is proved) and every range (also min=max, min>max, none): C18_progress (a call "
@@ -316,18 +837,44 @@ class C18(DiffProperty):
                   "for the exact crossing fraction x with o + x(v-o) = bound, |decode - x| <= 2^-16, else 0), "
                   "C18_code_is_clipped_floor, C18_join_preserves_totals, C18_join_draws_union, C18_set_apply_covers_all and "
                   "C18_set_apply_points (the same per-point statements for linepart::array::set+apply, the path polyline::set takes, "
-                  "joins included), C18_code_agrees_small_dyadic (binary64 vs exact codes, rounding properties as hypotheses); the "
+                  "joins included), C18_code_agrees_small_dyadic (binary64 vs exact codes, rounding properties as hypotheses); for "
+                  "mpt++/polyline.cpp and the rest of linepart.cpp: C18_further_dimension_covers (linepart::array::apply on ANY existing "
+                  "part list with any amount of data ends, never reads outside the data and covers exactly the points covered before), "
+                  "C18_further_dimension_points (for data that covers the records: it never adds visibility, drawn-once and in range "
+                  "in the new dimension stays drawn once, interior out of range in it is not drawn), C18_polyline_two_dimensions and "
+                  "C18_polyline_three_dimensions (the part list polyline::set computes from two / three stores: in range in all -> "
+                  "drawn once, interior out of range in one -> not drawn), "
+                  "C18_set_apply_parts (every part of set+apply, joins included: >= 1 point consumed, draws only existing points, a "
+                  "part with a fraction draws >= 2 points, cut/trim = code of the crossing of its first/last segment), "
+                  "C18_polyline_one_dimension (polyline::set with one store on any - also used - polyline: no read outside the data, "
+                  "fails exactly when nothing is drawn, the point array is point for point the data value resp. the point at the "
+                  "decoded fraction of the first/last segment), C18_polyline_clip_on_boundary (such a clipped point lies within 2^-16 "
+                  "of the segment length of the range boundary), C18_polyline_iterator (the iterator ends, its lines tile the points "
+                  "in part order, points() never underflows); the "
                   "model is tied to the code on every run by differential execution under ASan/UBSan (exhaustive over the 5-class "
-                  "alphabet to length 8, random dyadic sequences, runs around 65535 points)")
-    level_note = ("trusted: Coq kernel; hand transcription of linepart_linear/code/join.c and linepart::array::set/apply (validated by "
-                  "the correspondence run, not verified); extraction and OCaml driver; harness; python reading of the part lists. "
+                  "alphabet to length 8, random dyadic sequences, runs around 65535 points; polyline::set / apply_data / iterator on "
+                  "real value stores with the real transform3, exhaustive to length 5 and random frames)")
+    level_note = ("trusted: Coq kernel; hand transcription of linepart_linear/code/join.c, mpt++/linepart.cpp and mpt++/polyline.cpp (validated by "
+                  "the correspondence run, not verified); extraction and OCaml driver; harness; python reading of part lists and points. "
                   "The theorems are about exact rational arithmetic; the C computes the two fractions in binary64 - the link is the "
                   "stated comparison rule (codes equal for small dyadic inputs, |delta| <= 1 otherwise) and "
                   "C18_code_agrees_small_dyadic, whose two rounding facts (relative error <= 2^-53, representable quotients exact) "
-                  "are explicit hypotheses, not proved from an IEEE model.  NaN and infinities are outside the model (observed, "
-                  "not in the check: {0, NaN, 2} against [1,3] returns raw = 0, see docs/notes_C18.md).  apply() with a second "
-                  "dimension (intersection of two part lists) is not modelled.  The theorems hold for the tree with the fix: commit "
-                  "'mpt_linepart_join keeps the trim of the appended part'.  All 12 theorems are closed under the global context.")
+                  "are explicit hypotheses, not proved from an IEEE model.  NaN and infinities are outside the model.  "
+                  "PARTIAL for several dimensions: proved for every part list and every amount of data are termination, memory safety "
+                  "and coverage of a further dimension (C18_further_dimension_covers); the per-point drawing statements are proved for "
+                  "one dimension and for a second and third one that have at least as many values (C18_further_dimension_points, "
+                  "C18_polyline_two_dimensions, C18_polyline_three_dimensions); only CHECKED (python check_frame against the "
+                  "implementation, model compared token by token) are: a later dimension with fewer values, the fraction of a crossing in "
+                  "two dimensions (largest of the two codes), the points of polyline::set for more than one store, apply_data without "
+                  "part records.  OPEN DEFECTS: the polyline theorems are about the model, which "
+                  "follows the seven proposed patches docs/C18_*.diff where the unpatched code violates the property (stale fractions "
+                  "after set() on a used polyline; wrong/missing trim and fractions on undrawn parts when a second dimension is applied "
+                  "after a ranged one; reads behind a shorter dimension; stores behind an unusable one never applied; a call without "
+                  "first store redraws the old points at the origin; apply_data without parts loses its count after the first "
+                  "dimension; apply<> leaves a 2-point part with raw = 1 at the origin); replays docs/C18_replay_*.json reproduce each "
+                  "as VIOLATION on the unpatched tree; for polyline::set with ONE dimension on a FRESH polyline (what the generator "
+                  "runs unpatched) patched and unpatched code agree except for the last defect, whose points are masked in generated "
+                  "cases until PATCHED_APPLY_SHORT_PART is set.  All 20 theorems are closed under the global context.")
     technique = "Coq proof (per-part invariant, induction over the driver loop) + differential correspondence check with a stated rounding rule"
     assumptions = ["binary64 division/subtraction are correctly rounded (IEEE-754), no excess precision",
                    "inputs are finite doubles (no NaN/infinity)"]
@@ -399,6 +946,29 @@ class C18(DiffProperty):
             cl.add("join")
         elif t[0] == "C":
             cl.add("code/real")
+        elif t[0] == "P":
+            f = poly_static(case)
+            frs = parse_frames(case)
+            nd = max([len([d for d in fr if d[0] == "D" and d[3]]) for fr in frs] + [0])
+            cl.add("polyline-%d-dim" % nd)
+            if f["frames"] > 1:
+                cl.add("polyline-set-again")
+            if f["merge"]:
+                cl.add("polyline-range-then-further-dimension")
+            elif nd > 1 and any(frame_static(fr)[4] for fr in frs):
+                cl.add("polyline-range-and-plain-dimensions")
+            if f["uneq"]:
+                cl.add("polyline-unequal-lengths")
+            if f["skip"] or f["used-nofirst"] or any(not usable(d) for fr in frs for d in fr):
+                cl.add("polyline-unusable-store")
+            if max([count_points(d[3]) for fr in frs for d in fr if d[0] == "D"] + [0]) >= 65533:
+                cl.add("polyline-at-part-limit")
+        elif t[0] == "R":
+            cl.add("array-set(-1)")
+        elif t[0] == "A":
+            cl.add("apply_data-without-parts")
+        elif t[0] == "W":
+            cl.add("set_cut/set_trim")
         return cl
 
     def sequences(self, cases):
@@ -458,9 +1028,51 @@ class C18(DiffProperty):
                     yield " ".join(["J"] + p)
             for k in range(len(ps)):
                 yield " ".join(["J"] + [x for p in ps[:k] + ps[k + 1:] for x in p])
-        elif t[0] == "C":
+        elif t[0] in ("C", "W"):
             for k in range(1, len(t)):
                 yield " ".join(t[:k] + t[k + 1:])
+        elif t[0] == "P":
+            frs = split_on(t[1:], "&")
+            if len(frs) > 1:
+                for k in range(len(frs)):
+                    yield "P " + " & ".join(" ".join(f) for f in frs[:k] + frs[k + 1:])
+            for fi, f in enumerate(frs):
+                dims = [d for d in split_on(f, "|") if d]
+
+                def put(nd):
+                    nf = " | ".join(" ".join(d) for d in nd)
+                    return "P " + " & ".join([" ".join(x) for x in frs[:fi]] + [nf] + [" ".join(x) for x in frs[fi + 1:]])
+                if len(dims) > 1:
+                    for k in range(len(dims)):
+                        yield put(dims[:k] + dims[k + 1:])
+                # drop the same point from every dimension / shorten runs / drop the range of one dimension
+                hd = [2 if d[0] not in ("X", "Z", "F") else 1 for d in dims]
+                nv = max(len(d) - h for d, h in zip(dims, hd))
+                for k in range(nv):
+                    yield put([d[:h] + d[h:][:k] + d[h:][k + 1:] for d, h in zip(dims, hd)])
+                for k in range(nv):
+                    nd = []
+                    ch = False
+                    for d, h in zip(dims, hd):
+                        vs = d[h:]
+                        if k < len(vs) and "*" in vs[k]:
+                            b, c = vs[k].split("*")
+                            c = int(c)
+                            c2 = 65533 if c > 65534 else c // 2
+                            if c2 >= 1:
+                                vs = vs[:k] + ["%s*%d" % (b, c2)] + vs[k + 1:]
+                                ch = True
+                        nd.append(d[:h] + vs)
+                    if ch:
+                        yield put(nd)
+                for k, d in enumerate(dims):
+                    if hd[k] == 2 and d[0] != "N":
+                        yield put(dims[:k] + [["N", "N"] + d[2:]] + dims[k + 1:])
+        elif t[0] == "A":
+            n = int(t[1])
+            for n2 in (n // 2, n - 1, 65536, 65535):
+                if 1 <= n2 < n:
+                    yield " ".join(["A", str(n2)] + [("%s*%d" % (x.split("*")[0], min(int(x.split("*")[1]), n2)) if "*" in x else x) for x in t[2:]])
 
     # ---- generator
     def exhaustive(self, alpha, maxlen, depth):
@@ -563,6 +1175,147 @@ class C18(DiffProperty):
             vs.append("%d/%d" % (rng.randrange(-3, (1 << e) + 4) if rng.random() < 0.8 else rng.choice([0, 1, (1 << e) - 1, 1 << e, (1 << e) + 1]), e))
         return ["C " + " ".join(vs[i:i + 60]) for i in range(0, len(vs), 60)]
 
+    # ---- polyline cases: every value and bound on the small dyadic grid (all arithmetic of the code is exact there)
+    def poly_dim(self, rng, n, ranged, grid):
+        vs = []
+        pool = [self.rand_value(rng, grid) for _ in range(rng.choice([2, 3, 5, 8]))]
+        while len(vs) < n:
+            v = rng.choice(pool) if rng.random() < 0.7 else self.rand_value(rng, grid)
+            vs += [v] * rng.choice([1, 1, 1, 2, 3])
+        vs = vs[:n]
+        if not ranged or not vs:
+            return ["N", "N"] + vs
+        srt = sorted(set(vs), key=lambda x: val_of(x)[0])
+        a, b = rng.choice(srt), rng.choice(srt)
+        r = rng.random()
+        if r < 0.75:
+            a, b = sorted([a, b], key=lambda x: val_of(x)[0])
+        elif r < 0.85:
+            a, b = self.rand_value(rng, grid), self.rand_value(rng, grid)
+            a, b = sorted([a, b], key=lambda x: val_of(x)[0])
+        return [a, b] + vs
+
+    def poly_frame(self, rng, kind):
+        """kind: 1 = one dimension; 'last' = only the last dimension has a range; 'multi' = ranges anywhere;
+        'uneq' = lengths differ; 'skip' = unusable stores in between"""
+        grid = rng.choice(["grid", "grid", "small"])
+        n = rng.choice([1, 2, 3, 4, 5, 6, 8, 12, 20, 40])
+        if kind == 1:
+            return " ".join(self.poly_dim(rng, n, rng.random() < 0.9, grid))
+        if kind == "plain":
+            return " | ".join(" ".join(self.poly_dim(rng, n, False, grid)) for _ in range(rng.choice([1, 2, 3])))
+        if kind == "enter":
+            # one dimension with a range that is entered (cuts) but never left, the others without a range
+            a = rng.randrange(0, n + 1)
+            lo, hi = rng.choice([("0/0", "4/0"), ("4/0", "0/0"), ("0/0", "0/0")])
+            vs = [rng.choice([lo, hi]) for _ in range(a)] + [rng.choice(["1/0", "2/0", "5/1", "3/0"]) for _ in range(n - a)]
+            dims = [["1/0", "3/0"] + vs] + [self.poly_dim(rng, n, False, grid) for _ in range(rng.choice([1, 1, 2]))]
+            if rng.random() < 0.5:
+                dims = dims[1:2] + dims[:1] + dims[2:]
+            return " | ".join(" ".join(d) for d in dims)
+        nd = rng.choice([2, 2, 3])
+        dims = []
+        for d in range(nd):
+            m = n
+            if kind == "uneq" and rng.random() < 0.6:
+                m = max(0, n + rng.choice([-3, -2, -1, -1, 1, 2]))
+            rg = (d == nd - 1) if kind == "last" else rng.random() < 0.7
+            dims.append(self.poly_dim(rng, m, rg, grid))
+        if kind == "skip":
+            k = rng.randrange(nd)
+            dims.insert(k, rng.choice([["X"], ["X"], ["F", "1/0", "2/0"], ["Z"]]) if k else rng.choice([["X"], ["F", "1/0"]]))
+            dims = dims[:4]
+        return " | ".join(" ".join(d) for d in dims)
+
+    def poly_cases(self, rng, tier):
+        quick = tier == "quick"
+        out = []
+        # one dimension, exhaustive over the five classes (the L/E language at the level of the polyline)
+        mn, mx, syms = ALPHA_MAIN
+        for n in range(0, (5 if quick else 7) + 1):
+            for w in itertools.product(syms, repeat=n):
+                out.append(" ".join(["P", mn, mx] + list(w)))
+        for al, top in ((ALPHA_FRAC, 4), (ALPHA_DEGEN, 3), (ALPHA_EMPTY, 3), (ALPHA_NONE, 3)):
+            for n in range(1, top + 1):
+                for w in itertools.product(al[2], repeat=n):
+                    out.append(" ".join(["P", al[0], al[1]] + list(w)))
+        # two dimensions, exhaustive: x in {below, inside, above} of [1,3], y the same, every pair sequence
+        three = ["0/0", "2/0", "4/0"]
+        pairs = list(itertools.product(three, three))
+        for n in range(1, (3 if quick else 4) + 1):
+            for w in itertools.product(pairs, repeat=n):
+                out.append("P 1/0 3/0 %s | 1/0 3/0 %s" % (" ".join(p[0] for p in w), " ".join(p[1] for p in w)))
+        # only the last dimension has a range (the path that needs no patch), exhaustive in y
+        for n in range(1, (4 if quick else 6) + 1):
+            for w in itertools.product(syms, repeat=n):
+                out.append("P N N %s | %s %s %s" % (" ".join("%d/0" % (7 + i) for i in range(n)), mn, mx, " ".join(w)))
+        # long runs around the chunk / part limits
+        IN, LO, HI = "2/0", "0/0", "4/0"
+        for n in (65533, 65534, 65535, 65536):
+            out.append("P 1/0 3/0 %s*%d" % (IN, n))
+            out.append("P 1/0 3/0 %s %s*%d %s" % (LO, IN, n - 2, HI))
+            out.append("P 1/0 3/0 %s*%d %s %s" % (IN, n - 2, HI, IN))
+            out.append("P 1/0 3/0 %s*%d %s*3 %s" % (IN, n - 4, LO, IN))
+            out.append("P N N %s*%d | 1/0 3/0 %s*%d %s %s" % ("5/0", n, IN, n - 2, HI, IN))
+            out.append("P 1/0 3/0 %s*%d %s %s | N N 1/0*%d" % (IN, n - 2, HI, IN, n))
+            out.append("P 1/0 3/0 %s*%d %s*%d %s | 1/0 3/0 %s*%d" % (IN, n - 8, HI, 7, IN, IN, n))
+            out.append("P 1/0 3/0 %s*%d %s*%d %s | N N 9/0*%d" % (IN, n - 8, HI, 7, IN, n))
+        for n in (131066, 131070):
+            out.append("P 1/0 3/0 %s %s*%d %s %s*%d %s" % (LO, IN, 65530, HI, IN, n - 65533, LO))
+        # polyline::set again on a used polyline, unusable stores, unequal lengths, ranges anywhere
+        nr = 1500 if quick else 30000
+        for i in range(nr):
+            kind = (1, "last", "multi", "uneq", "skip", "frames", "enter", "plainframes")[i % 8]
+            if kind == "frames":
+                fr = [self.poly_frame(rng, rng.choice([1, 1, "last", "multi"])) for _ in range(rng.choice([2, 2, 3]))]
+                if rng.random() < 0.2:
+                    fr.insert(rng.randrange(1, len(fr) + 1), rng.choice(["X", "Z", "X | N N 1/0 2/0", "F 1/0"]))
+                out.append("P " + " & ".join(fr))
+            elif kind == "plainframes":
+                # set() again after frames without any range: the records it re-uses carry no fractions
+                fr = [self.poly_frame(rng, "plain") for _ in range(rng.choice([1, 2]))] + [self.poly_frame(rng, rng.choice([1, "last", "enter"]))]
+                out.append("P " + " & ".join(fr))
+            else:
+                out.append("P " + self.poly_frame(rng, kind))
+        for n in range(1, 6):          # a range that is entered once, every position, with a plain second dimension
+            for a in range(0, n + 1):
+                for o in ("0/0", "4/0"):
+                    out.append("P 1/0 3/0 %s | N N %s" % (" ".join([o] * a + ["2/0"] * (n - a)), " ".join("%d/0" % (9 + i) for i in range(n))))
+        out += ["P N N 1/0 2/0 3/0 & X", "P N N 1/0 2/0 3/0 & X | N N 1/0 2/0", "P N N 1/0 2/0 3/0 & Z", "P N N 1/0 2/0 & N N 1/0 2/0 3/0 4/0 & 1/0 3/0 0/0 2/0 4/0",
+                "P N N 5/0*70000 & 1/0 3/0 0/0 2/0 4/0"]
+        out += ["P X", "P Z", "P 1/0 3/0", "P X | X", "P F 1/0 2/0", "P N N 1/0 | N N 2/0 | N N 3/0 | N N 4/0",
+                "P 1/0 3/0 2/0 | 1/0 3/0 2/0 | 1/0 3/0 2/0 0/0", "P X | N N 1/0 2/0", "P Z | N N 1/0 2/0",
+                "P 1/0 3/0 0/0 2/0 4/0 & 1/0 3/0 2/0 2/0 2/0", "P 1/0 3/0 0/0 2/0 4/0 & X | 1/0 3/0 2/0 2/0 2/0",
+                "P 1/0 3/0 0/0 2/0 4/0 & Z | 1/0 3/0 2/0 2/0 2/0", "P 1/0 3/0 2/0*70000 & 1/0 3/0 2/0 4/0"]
+        # linepart::array::set(-1) after a set
+        for n in (1, 2, 65532, 65533, 65534, 131066, 131067):
+            out.append("R N N 1/0*%d" % n)
+            out.append("R 1/0 3/0 0/0 2/0*%d 4/0" % n)
+        for _ in range(60 if quick else 600):
+            out.append("R " + self.poly_frame(rng, rng.choice([1, "plain", "plain", "last", "enter"])))
+        # apply_data without part records
+        for n in (2, 5, 70000):
+            out.append("A %d N N 1/0*%d" % (n, n // 2))
+            out.append("A %d N N 1/0*%d" % (n, n + 3))
+        for n in (0, 1, 2, 5, 65535, 65536, 70000, 131071):
+            out.append("A %d N N 1/0*%d" % (n, max(n, 1)))
+            out.append("A %d N N 1/0*%d | N N 2/0*%d" % (n, max(n, 1), max(n, 1)))
+            out.append("A %d N N 1/0*%d | N N 2/0*%d | N N 3/0*%d" % (n, max(n, 1), max(n, 1), max(n, 1)))
+            out.append("A %d N N 1/0*%d | X | N N 3/0*%d" % (n, max(n, 1), max(n // 2, 1)))
+            out.append("A %d N N 1/0*%d | N N 2/0*%d" % (n, max(n // 2, 1), max(n, 1)))
+        for _ in range(40 if quick else 400):
+            n = rng.choice([1, 2, 3, 7, 20])
+            out.append("A %d %s" % (n, " | ".join(" ".join(["N", "N"] + [self.rand_value(rng, "small") for _ in range(rng.choice([n, n, max(1, n - 2), n + 2]))])
+                                                 for _ in range(rng.choice([1, 2, 3, 4])))))
+        # the float wrappers of the record: values exact in binary32
+        ws = ["0/0", "1/0", "1/1", "3/1", "-1/1", "1/16", "1/17", "65535/16", "65537/16", "16777215/24", "1/24", "3/2", "2/0"]
+        for _ in range(100 if quick else 2000):
+            e = rng.choice([4, 8, 16, 17, 20, 24])
+            ws.append("%d/%d" % (rng.randrange(-2, (1 << e) + 3) if e <= 24 and rng.random() < 0.8 else rng.choice([0, 1, 1 << e]), e))
+        ws = [w for w in ws if abs(val_of(w)[0].numerator).bit_length() <= 24]
+        out += ["W " + " ".join(ws[i:i + 40]) for i in range(0, len(ws), 40)]
+        return [c for c in out if poly_enabled(c)]
+
     def generate(self, rng, tier):
         quick = tier == "quick"
         cases = []
@@ -579,12 +1332,15 @@ class C18(DiffProperty):
             mode = ("grid", "small", "full")[i % 3]
             n = rng.choice([1, 2, 3, 5, 8, 12, 20, 40]) if i % 50 else rng.choice([100, 300])
             cases.append(self.rand_seq(rng, mode, n))
+        cases += self.poly_cases(rng, tier)
         if not hasattr(self, "_rule0"):
             self._rule0 = self.rule
         self.rule = self._rule0 + " [this run: %d value sequences in %d generated cases]" % (self.sequences(cases), len(cases))
         return cases
 
     def run(self, tier, seed, replay=None):
+        global STRICT
+        STRICT = bool(replay)          # a replay file is compared without any masking
         return DiffProperty.run(self, tier, seed, replay=replay)
 
 
